@@ -4,6 +4,8 @@ import (
 	"fmt"
 	"go/types"
 	"strings"
+
+	"golang.org/x/tools/go/ssa"
 )
 
 // Env is the environment a contract expression is evaluated in.
@@ -260,7 +262,10 @@ func (r *Run) eval(e *Env, x *SX) *Val {
 			fmt.Sscanf(args[2].Atom, "%d", &i)
 		}
 		if !ok || i >= len(res) {
-			// the call did not happen on this path: an unconstrained value (guard with (called ...))
+			// the call did not happen on this path: an unconstrained value of the right type (guard with (called ...))
+			if t := r.callResultType(args[0].Atom, k, i); t != nil {
+				return r.freshVal(e.st.clone(), t, "nocall")
+			}
 			return opaque(r.fresh("nocall", "Int"))
 		}
 		return res[i]
@@ -448,6 +453,27 @@ func (d *Decl) usesOf() []string {
 	for _, e := range d.SX.List {
 		if e.Head() == "use" {
 			return atoms(e)[1:]
+		}
+	}
+	return nil
+}
+
+// callResultType finds the static type of result i of the k-th call of callee `name` in the function under verification.
+func (r *Run) callResultType(name, k string, i int) types.Type {
+	for _, b := range r.fn.Blocks {
+		for _, in := range b.Instrs {
+			c, ok := in.(*ssa.Call)
+			if !ok {
+				continue
+			}
+			cn := strings.TrimPrefix(r.eng.calleeName(&c.Call), "dyn:")
+			if cn != name || fmt.Sprint(r.eng.callOrdinal(in, r.eng.calleeName(&c.Call))) != k {
+				continue
+			}
+			res := c.Call.Signature().Results()
+			if i < res.Len() {
+				return res.At(i).Type()
+			}
 		}
 	}
 	return nil
